@@ -78,13 +78,22 @@ class Run:
         out = os.path.join(self.bin, name + ("-race" if race else ""))
         if os.path.exists(out):
             return out
-        shutil.copyfile(os.path.join(REPO, "go.sum"), os.path.join(HARNESS, "go.sum"))
+        # build from a private copy of the harness module whose replace directive points at the tree under test
+        # (/repo by default; VERIF_REPO lets a scratch worktree be checked without touching /repo)
+        hdir = os.path.join(self.dir, "harness")
+        if not os.path.isdir(hdir):
+            shutil.copytree(HARNESS, hdir)
+            with open(os.path.join(hdir, "go.mod")) as f:
+                gm = f.read()
+            with open(os.path.join(hdir, "go.mod"), "w") as f:
+                f.write(gm.replace("=> /repo", "=> " + REPO))
+            shutil.copyfile(os.path.join(REPO, "go.sum"), os.path.join(hdir, "go.sum"))
         cmd = ["go", "build", "-tags", "verif", "-o", out]
         if race:
             cmd.insert(2, "-race")
         cmd.append("./cmd/" + name)
         t = time.time()
-        p = subprocess.run(cmd, cwd=HARNESS, env=goenv(), capture_output=True, text=True)
+        p = subprocess.run(cmd, cwd=hdir, env=goenv(), capture_output=True, text=True)
         if p.returncode != 0:
             raise MachineryError("harness build failed (does /repo compile?):\n" + p.stdout + p.stderr)
         log("built %s in %.1fs" % (os.path.basename(out), time.time() - t))
